@@ -232,11 +232,13 @@ class Engine(
         """  # noqa: D401
         match operation:
             case Calculation(tag=tag):
-                if select.is_compound:
+                if select.is_compound or tag in select.skip_to.columns:
                     # This Select wraps a Chain operation in order to represent
                     # a SQL UNION or UNION ALL, and we trust the user's intent
                     # in putting those upstream of this operation, so we also
-                    # add a nested subquery here.
+                    # add a nested subquery here.  We also need a subquery if
+                    # the new column would collide with one that an existing
+                    # Projection has removed.
                     return Select.apply_skip(operation._finish_apply(select))
                 elif select.has_projection:
                     return select.reapply_skip(
